@@ -145,16 +145,30 @@ def _alarm(signum, frame):
 signal.signal(signal.SIGALRM, _alarm)
 
 
+class TooManyTimeouts(RuntimeError):
+    """several calls into /repo did not return within their time limit: the run is stopped and reported as a violation
+    (on the unchanged tree every generated call returns in milliseconds)"""
+
+
+TIMEOUTS = []          # descriptions of the calls that hit their alarm in this run
+MAX_TIMEOUTS = 3
+
+
 def guarded(fn, *a, secs=20, **k):
     """call into /repo under an alarm. returns ('ok', value) | ('exc', ExceptionName, text) |
-    ('timeout',)"""
+    ('timeout', 'TimeoutError', text)"""
     signal.alarm(secs)
     try:
         v = fn(*a, **k)
         signal.alarm(0)
         return ("ok", v)
     except Timeout:
-        return ("timeout",)
+        signal.alarm(0)
+        desc = f"{getattr(fn, '__name__', repr(fn))}({', '.join(repr(x)[:120] for x in a)}{', ' if a and k else ''}{', '.join(f'{kk}={vv!r}'[:80] for kk, vv in k.items())}) did not return within {secs} s"
+        TIMEOUTS.append(desc[:900])
+        if len(TIMEOUTS) >= MAX_TIMEOUTS:
+            raise TooManyTimeouts("; ".join(TIMEOUTS)[:2500])
+        return ("timeout", "TimeoutError", desc[:300])
     except BaseException as e:  # noqa: BLE001
         signal.alarm(0)
         if isinstance(e, (KeyboardInterrupt, SystemExit)):
